@@ -236,12 +236,14 @@ macro_rules! with_range {
                 $body
             }
             RangeSpec::Bounds(a, b) => {
-                let $r = ($crate::c18::adapters::bound(a), $crate::c18::adapters::bound(b));
+                let $r = ($crate::adapters::bound(a), $crate::adapters::bound(b));
                 $body
             }
         }
     };
 }
+
+
 
 pub(crate) use with_range;
 
@@ -252,7 +254,7 @@ macro_rules! soa {
         pub mod $m {
             use super::*;
             #[allow(unused_imports)]
-            use crate::c18::types::$c as C;
+            use simcore::types::$c as C;
 
             pub const NCOLOR: usize = [$(stringify!($f)),+].len();
 
